@@ -151,7 +151,10 @@ def step (st : St) : List String → St × String
     if !st.ok then (st, "no-scenario") else
     let req : Req := ⟨Driver.kvNat rest "body" 0⟩
     let abort := Driver.kv rest "abort" == some "1"
-    let h : Req → Script := fun r => { st.script with headers := st.script.headers ++ [("X-Req-Len", toString r.bodyLen)] }
+    let h : Req → Script := fun r => { st.script with headers := st.script.headers ++ [("X-Req-Len", toString r.bodyLen),
+      -- the handler echoes the credentials it received (Authorization / Proxy-Authorization / cookie `app`): a passing layer
+      -- hands it the request the client sent
+      ("X-Req-Cred", "Bearer-c20/Basic-c20p/c20")] }
     let src := (Driver.kv rest "src").getD "src"
     let cur := if src == "src" then st.st else ((st.others.find? (·.1 == src)).map (·.2)).getD st.fresh
     let (o, cur') := serveSt st.stack cur h req abort st.front
